@@ -63,6 +63,8 @@ ListedAccepted == phase = "query" /\ NoClash => \A i \in DOMAIN es : \A a \in Di
 \* nor are the Capitalised / UPPER-CASE forms of a lower-case entry
 CasedFormsAccepted == phase = "query" /\ NoClash => \A i \in DOMAIN es : \A a \in Dialects :
    (IsLowerWord(es[i].w) /\ DialectOk(es[i].d, a)) => (Accept(es, Capitalised(es[i].w), a) /\ Accept(es, Upper(es[i].w), a))
+\* (known finding C06-user-word-of-another-dialect: the dialect premise below is the code's - the FIRST part's tag
+\* decides - so a user word that the curated part lists for another dialect is outside what is promised here)
 \* the same for the merged dictionary: whichever part lists the spelling (a user word may be another
 \* capitalisation of a curated entry); the dialect is that of the part that supplies the metadata
 MergedListedAccepted == phase = "query" /\ NoClashIn(Part1) /\ NoClashIn(Part2) => \A i \in DOMAIN es : \A a \in Dialects :
